@@ -536,6 +536,15 @@ func parseContractFile(path, pkgPath string) ([]*Contract, error) {
 				return nil, fail(err)
 			}
 			cl.Expr = e
+		case "capture":
+			// capture CALLEE as NAME: the results of the (last executed) call to CALLEE
+			// are available to later assertions as NAME0, NAME1, ... (NAME = NAME0)
+			parts := strings.Fields(cl.Text)
+			if len(parts) != 3 || parts[1] != "as" {
+				return nil, fail(fmt.Errorf("capture CALLEE as NAME"))
+			}
+			cl.Name = parts[0]
+			cl.Text = parts[2]
 		case "never_call":
 			// never_call NAME: the function makes no call to NAME (an assertion `false`
 			// at every such call site; nothing is demanded when there is none)
